@@ -1118,3 +1118,8 @@ LOADS = [
 ]
 
 PROP = Prop()
+
+import parts  # noqa: E402
+import parts_misc  # noqa: E402
+
+parts.attach(PROP, parts_misc.MAPPER)   # common.call_mapper (model Forest/MiscMapper.v, theorems at the end of Properties/C14.v)
